@@ -75,9 +75,13 @@ func c17KindByName(n string) *c17Kind {
 // recovery and returns (class, flow): class ok = layer present.
 func c17LayerFlow(k *c17Kind, data []byte) (cls string, f gopacket.Flow) {
 	cls = "panic"
+	stage := "decode"
 	defer func() {
 		if r := recover(); r != nil {
 			cls = "panic"
+			if stage == "flow" {
+				cls = "panic-in-flow"
+			}
 		}
 	}()
 	p := gopacket.NewPacket(data, k.lt(), gopacket.DecodeOptions{Lazy: true, SkipDecodeRecovery: true})
@@ -87,18 +91,21 @@ func c17LayerFlow(k *c17Kind, data []byte) (cls string, f gopacket.Flow) {
 		if l == nil {
 			break
 		}
+		stage = "flow"
 		return "ok", l.LinkFlow()
 	case 1:
 		l := p.NetworkLayer()
 		if l == nil {
 			break
 		}
+		stage = "flow"
 		return "ok", l.NetworkFlow()
 	case 2:
 		l := p.TransportLayer()
 		if l == nil {
 			break
 		}
+		stage = "flow"
 		return "ok", l.TransportFlow()
 	}
 	if p.ErrorLayer() != nil {
@@ -304,6 +311,8 @@ func (c17) Run(c Case) Result {
 				tags["len-17-reject"] = true
 				if !panicked {
 					fail("C17:reject-17", "%s: NewEndpoint accepted %d bytes", op, len(raw))
+					res.Obs = append(res.Obs, "cls=accepted-oversize")
+					continue
 				}
 			} else if panicked {
 				fail("C17:accept-16", "%s: NewEndpoint panicked on %d bytes", op, len(raw))
@@ -325,6 +334,8 @@ func (c17) Run(c Case) Result {
 				tags["len-17-reject"] = true
 				if !panicked {
 					fail("C17:reject-17", "%s: NewFlow accepted %d/%d bytes", op, len(src), len(dst))
+					res.Obs = append(res.Obs, "cls=accepted-oversize")
+					continue
 				}
 			} else if panicked {
 				fail("C17:accept-16", "%s: NewFlow panicked on %d/%d bytes", op, len(src), len(dst))
@@ -471,6 +482,9 @@ func (c17) Run(c Case) Result {
 			k := c17KindByName(args[0])
 			data := getb(1)
 			cls, f := c17LayerFlow(k, data)
+			if cls == "panic-in-flow" {
+				fail("C17:layer-flow-panics", "%s: the layer decoded but its flow constructor panicked", op)
+			}
 			if cls != "ok" {
 				res.Obs = append(res.Obs, "cls="+cls)
 			} else {
